@@ -445,10 +445,12 @@ Definition lex_exp (tok rest : str) : option (str * str) :=
 Definition lex_num (s : str) : option (str * str) :=
   let (ip, r1) := span_digits s in
   match r1 with
-  | 46 :: r2 =>
-      let (fp, r3) := span_digits r2 in
-      if nonempty ip || nonempty fp then lex_exp (ip ++ 46 :: fp) r3 else None
-  | _ => if nonempty ip then lex_exp ip r1 else None
+  | c :: r2 =>
+      if c =? 46 then
+        let (fp, r3) := span_digits r2 in
+        if nonempty ip || nonempty fp then lex_exp (ip ++ 46 :: fp) r3 else None
+      else if nonempty ip then lex_exp ip r1 else None
+  | [] => if nonempty ip then lex_exp ip r1 else None
   end.
 (* the literal with its sign *)
 Definition lex_signed (s : str) : option (str * str) :=
@@ -481,19 +483,28 @@ Fixpoint chars_uint (s : str) : option Decimal.uint :=
       else None
     end
   end.
+Definition uint_Z (o : option Decimal.uint) : option Z :=
+  match o with Some d => Some (Z.of_N (N.of_uint d)) | None => None end.
 Definition parse_int (s : str) : option Z :=
   match s with
-  | 45 :: r => match chars_uint r with Some d => Some (Z.opp (Z.of_N (N.of_uint d))) | None => None end
-  | _ => match chars_uint s with Some d => Some (Z.of_N (N.of_uint d)) | None => None end
+  | c :: r =>
+      if c =? 45 then (match r with [] => None | _ => option_map Z.opp (uint_Z (chars_uint r)) end)
+      else uint_Z (chars_uint s)
+  | [] => None
   end.
 
 (* ---- what a '-' in the statement starts *)
 Inductive minus_tok := OpMinus (rest : str) | Comment (body : str) | NotMinus.
 Definition lex_minus (s : str) : minus_tok :=
   match s with
-  | 45 :: 45 :: r => Comment r
-  | 45 :: r => OpMinus r
-  | _ => NotMinus
+  | c :: r =>
+      if c =? 45 then
+        match r with
+        | c2 :: r2 => if c2 =? 45 then Comment r2 else OpMinus r
+        | [] => OpMinus []
+        end
+      else NotMinus
+  | [] => NotMinus
   end.
 
 (* ---- a list of string literals separated by ", " *)
